@@ -39,16 +39,31 @@ def run(tier):
             rep.machinery("no record could be extracted for block %s: %s" % (name, sk[:1]))
     for i, r in enumerate(recs):
         r["id"] = i + 1
+    lims = []
+    for name in blockdrv.LIMITED:
+        try:
+            lr = blockdrv.limit_records(name)
+        except Exception:
+            import traceback
+            rep.machinery("limiter records failed for block %s" % name, traceback.format_exc()[-1500:])
+            continue
+        if not lr:
+            rep.machinery("no limiter record for block %s" % name)
+        lims += lr
+    for i, r in enumerate(lims):
+        r["id"] = i + 1
     d = scratch_dir("bk")
     try:
-        rp, op = os.path.join(d, "r.json"), os.path.join(d, "o.json")
+        rp, op, lp = os.path.join(d, "r.json"), os.path.join(d, "o.json"), os.path.join(d, "l.json")
         json.dump(recs, open(rp, "w"))
-        res = run_tlc("Blocks", "Blocks.cfg", workers=1, timeout=1800, env={"RECORDS": rp, "OUT": op})
+        json.dump(lims, open(lp, "w"))
+        res = run_tlc("Blocks", "Blocks.cfg", workers=1, timeout=1800, env={"RECORDS": rp, "OUT": op, "LIMITS": lp})
         rep.add_tlc(res, "Blocks (documented transfer functions verified on %d extracted records)" % len(recs))
         if not os.path.exists(op):
             rep.machinery("Blocks verification produced no verdicts", res["out"][-1500:])
             return rep.finish()
         verdicts = json.load(open(op))["verdicts"]
+        lverdicts = json.load(open(op))["limits"]
     finally:
         shutil.rmtree(d, ignore_errors=True)
     rep.states += len(recs)
@@ -64,6 +79,21 @@ def run(tier):
                 continue
             seen.add(key)
             rep.violation(key, "clause %s fails for block %s, parameters %s, s = %s" % (cl, r["block"], r["p"], r["s"]), replay=r)
+    rep.states += len(lims)
+    rep.traces += len(lverdicts)
+    for v in lverdicts:
+        rep.count()
+        r = lims[v["id"] - 1]
+        rep.nontriv("limit|%s|%s|x=%s|e=%s" % (r["block"], r["limiter"], r["x"], r["e"]))
+        for cl in v["viol"]:
+            key = "%s:%s.%s" % (cl, r["block"], r["limiter"])
+            if key in seen:
+                continue
+            seen.add(key)
+            rep.violation(key, "clause %s fails for limiter %s of block %s watching %s at x = %s, de = %s: flags zi/zl/zu = %s/%s/%s with %s"
+                          % (cl, r["limiter"], r["block"], r["watched"], r["x"], r["e"], r["zi"], r["zl"], r["zu"], r["p"]), replay=r)
+    rep.extra["limited_blocks"] = sorted({r["block"] for r in lims})
+    rep.extra["limit_records"] = len(lims)
     rep.extra["blocks"] = sorted({r["block"] for r in recs})
     rep.extra["records"] = len(recs)
     rep.extra["skipped"] = skipped[:20]
@@ -74,8 +104,9 @@ def run(tier):
     rep.assume("the realisation is read from the block's equation strings (exact Fraction evaluation) - that the generated code "
                "computes those strings is C02's concern; ill-posed tuples (singular system, e.g. T2 = 0 with T1 != 0) are skipped "
                "and listed")
-    rep.assume("nonlinear blocks (gates, piecewise, dead band, rate limiters, freeze / tracking variants) are not covered; limited "
-               "variants are checked inside their limits (flags zi = 1)")
+    rep.assume("nonlinear blocks (gates, piecewise, dead band, rate limiters, freeze / tracking variants) are not covered as transfer "
+               "functions; limited variants are checked inside their limits (flags zi = 1), and which quantity each of their limiters "
+               "watches against which documented pair of bounds is checked on a lattice with the block's own limiter objects")
     return rep.finish()
 
 
